@@ -114,7 +114,9 @@ def gen_queries(rng, cs, maxq=60):
             m = rng.randint(0, last + 3)
             den = rng.choice(DENS + [5, 7, 9, 64, 192, 1000])
             b = Fr(rng.randrange(0, 8 * den), den)
-        met = rng.choice([None, None, "active"])
+        # metronome carried by the query: none (no normalisation), the active one, or any other (Snap(...) then
+        # normalises with a metronome that is not the one in force - still a legal position)
+        met = rng.choice([None, None, "active", "active", rng.randint(1, 8)])
         qs.append(dict(measure=m, beat=R(b), met=met))
     return qs
 
